@@ -289,6 +289,84 @@ def ping_gate(sx):
         env.close()
 
 
+def refresh_gate(sx):
+    """the real refresh loop next to the real ping loop: while the spa is not connected, or has not answered a ping
+    for twice the ping period, no STATU / CURCH query leaves; with an answering, connected spa the queries do leave"""
+    import asyncio
+    from sx.vloop import patched_time
+    from geckolib.async_spa import GeckoAsyncSpa
+    from geckolib.async_spa_descriptor import GeckoAsyncSpaDescriptor
+    from geckolib.config import GeckoConfig
+    from . import facade_env as fe
+    env = Env()
+    saved = (GeckoConfig.PING_FREQUENCY_IN_SECONDS, GeckoConfig.PING_DEVICE_NOT_RESPONDING_TIMEOUT_IN_SECONDS,
+             GeckoConfig.SPA_PACK_REFRESH_FREQUENCY_IN_SECONDS)
+    (GeckoConfig.PING_FREQUENCY_IN_SECONDS, GeckoConfig.PING_DEVICE_NOT_RESPONDING_TIMEOUT_IN_SECONDS,
+     GeckoConfig.SPA_PACK_REFRESH_FREQUENCY_IN_SECONDS) = 0.4, 1.0, 1.5
+    try:
+        with patched_time(env.loop):
+            async def ev(e, **k):
+                pass
+            spa = GeckoAsyncSpa(CLI_ID, GeckoAsyncSpaDescriptor(SRC_ID, "spa", DEST), None, ev)
+            spa._protocol = env.proto
+            P, C, L = fe.tables("inxm", 9, 9)
+            spa.pack_type, spa.config_version, spa.log_version = 10, 9, 9
+            spa.log_class = L(spa.struct)
+            connected = bool(sx.choice("connected", 2))
+            answering = bool(sx.choice("spa_answers_pings", 2))
+            spa._is_connected = connected
+            spa._last_ping = env.loop.time()
+
+            def on_send(data):
+                v = _verb(data)
+                if v == b"APING" and answering:
+                    env.loop.call_later(0.01, env.proto.datagram_received, b"APING\x00", PARMS)
+            env.on_send = on_send
+
+            async def main():
+                ts = [asyncio.ensure_future(spa._ping_loop()), asyncio.ensure_future(spa._refresh_loop())]
+                await asyncio.sleep(2.0)          # one refresh period has elapsed, 1.5 s in
+                for t in ts:
+                    t.cancel()
+            env.loop.run_until_complete(main(), max_time=60.0)
+            queries = [(_verb(d), t) for (d, a, t) in env.tr.sent if _verb(d) in (b"STATU", b"CURCH")]
+            sx.observe("queries", len(queries))
+            if connected and answering:
+                sx.check(bool(queries), "gate.refresh-runs-when-connected-and-answering")
+            else:
+                sx.check(not queries, "gate.no-refresh-query-when-not-connected-or-not-pinging",
+                         lambda: f"connected={connected} answering={answering}: {queries}")
+    finally:
+        (GeckoConfig.PING_FREQUENCY_IN_SECONDS, GeckoConfig.PING_DEVICE_NOT_RESPONDING_TIMEOUT_IN_SECONDS,
+         GeckoConfig.SPA_PACK_REFRESH_FREQUENCY_IN_SECONDS) = saved
+        env.close()
+
+
+def two_connections(sx):
+    """two connections in one process: a datagram received on one never answers a request waiting on the other"""
+    from sx.vloop import patched_time, FakeDatagramTransport
+    from geckolib.driver import GeckoAsyncUdpProtocol, GeckoVersionProtocolHandler
+    env = Env()
+    try:
+        with patched_time(env.loop):
+            other = GeckoAsyncUdpProtocol(None, DEST)
+            other.connection_made(FakeDatagramTransport(env.loop, other, lambda tr, d, a: None))
+            # the request waits on `env.proto`; the matching reply arrives on which connection?
+            on_other = bool(sx.choice("reply_arrives_on_the_other_connection", 2))
+            when = [0.05, 0.15][sx.choice("when", 2)]
+            target = other if on_other else env.proto
+            env.on_send = lambda data: env.loop.call_later(when, target.datagram_received, KINDS[0][2], PARMS) \
+                if len(env.tr.sent) == 1 else None
+            res = env.loop.run_until_complete(env.proto.get(
+                lambda: GeckoVersionProtocolHandler.request(env.proto.get_and_increment_sequence_counter(False), parms=PARMS),
+                None, 1), max_time=100.0)
+            sx.check((res is None) == on_other, "req.reply-on-another-connection-is-not-ours",
+                     lambda: f"on_other={on_other} result={res}")
+            sx.check(other.queue.qsize() == (1 if on_other else 0), "req.other-connection-keeps-its-own-datagram")
+    finally:
+        env.close()
+
+
 def gates(sx):
     import time
     from sx.vloop import patched_time
@@ -427,3 +505,5 @@ def units(tier):
     yield Unit("abnormal-holder", abnormal_holder)
     yield Unit("ping-gate", ping_gate)
     yield Unit("call-sites", call_sites)
+    yield Unit("refresh-gate", refresh_gate)
+    yield Unit("two-connections", two_connections)
